@@ -589,6 +589,18 @@ SELF_EXAMPLES = [
 ]
 
 
+SELF_EXAMPLES_P = [
+    ('unforwarded-parameter', 'def g(seq, instrument=None):\n  return [n for n in seq if instrument is None or n.i == instrument]\n'
+                              'class A(object):\n  def __init__(self, seq, instrument=0):\n    self.x = g(seq)\n', 'A.__init__', BAD),
+    ('unforwarded-parameter', 'def g(seq, instrument=None):\n  return [n for n in seq if instrument is None or n.i == instrument]\n'
+                              'class A(object):\n  def __init__(self, seq, instrument=0):\n    self.x = g(seq, instrument)\n', 'A.__init__', OK),
+    ('unforwarded-parameter', 'class B(object):\n  def __init__(self, bins=0, limit=100):\n    self.l = limit\n'
+                              'class A(B):\n  def __init__(self, bins=0, limit=100):\n    super(A, self).__init__(bins=bins)\n', 'A.__init__', BAD),
+    ('dead-parameter', 'NUMBER = 64\ndef h(seq, number):\n  return [c for c in seq if c.n == NUMBER]\ndef f(seq, number=64):\n  return h(seq, number)\n', 'f', BAD),
+    ('dead-parameter', 'def h(seq, number):\n  return [c for c in seq if c.n == number]\ndef f(seq, number=64):\n  return h(seq, number)\n', 'f', OK),
+]
+
+
 class _FakeFn:
   def __init__(self, node):
     self.node = node
@@ -599,6 +611,156 @@ class _FakeMod:
   def __init__(self, tree):
     self.functions = dict((n.name, _FakeFn(n)) for n in tree.body if isinstance(n, ast.FunctionDef))
     self.assigns = {}
+
+
+def resolve_callee(fi, call, P):
+  """(FuncInfo of the function a call runs, number of leading parameters bound implicitly) or (None, 0): nested helpers, module
+  functions, constructors (through the class hierarchy), self.m(...) and super().m(...)."""
+  f = call.func
+  if isinstance(f, ast.Name):
+    cur = fi
+    while cur is not None:
+      if f.id in cur.nested:
+        return cur.nested[f.id], 0
+      cur = cur.parent
+    r = P.resolve_name(fi.module, f.id)
+    if hasattr(r, 'methods'):
+      m = P.lookup_method(r, '__init__')
+      return (m, 1) if m is not None else (None, 0)
+    return (r, 0) if hasattr(r, 'node') and isinstance(r.node, ast.FunctionDef) else (None, 0)
+  if isinstance(f, ast.Attribute):
+    owner = fi
+    while owner is not None and owner.cls is None:
+      owner = owner.parent
+    cls = owner.cls if owner is not None else None
+    if isinstance(f.value, ast.Call) and isinstance(f.value.func, ast.Name) and f.value.func.id == 'super' and cls is not None:
+      for c in P.mro(cls)[1:]:
+        if f.attr in c.methods:
+          return c.methods[f.attr], 1
+      return None, 0
+    if isinstance(f.value, ast.Name) and f.value.id == 'self' and cls is not None:
+      m = P.lookup_method(cls, f.attr)
+      if m is not None:
+        return m, (0 if m.is_static else 1)
+      return None, 0
+    r = P.resolve_expr(fi.module, f, cls)
+    if hasattr(r, 'methods'):
+      m = P.lookup_method(r, '__init__')
+      return (m, 1) if m is not None else (None, 0)
+    if hasattr(r, 'node') and isinstance(r.node, ast.FunctionDef):
+      return r, (1 if r.cls is not None and not r.is_static and not (isinstance(f.value, ast.Name) and f.value.id == 'self') and r.is_classmethod else 0)
+  return None, 0
+
+
+def _param_table(node):
+  a = node.args
+  pos = a.posonlyargs + a.args
+  dflt = dict((p.arg, v) for p, v in zip(pos[len(pos) - len(a.defaults):], a.defaults))
+  dflt.update((p.arg, v) for p, v in zip(a.kwonlyargs, a.kw_defaults) if v is not None)
+  return [p.arg for p in pos], dflt, [p.arg for p in a.kwonlyargs]
+
+
+def bound_arguments(call, callee, skip):
+  """parameter name -> argument expression for the arguments a call passes (None: *args / **kwargs present)."""
+  if any(isinstance(a, ast.Starred) for a in call.args) or any(k.arg is None for k in call.keywords):
+    return None
+  order, _d, _k = _param_table(callee.node)
+  out = dict((order[skip + i], a) for i, a in enumerate(call.args) if skip + i < len(order))
+  out.update((k.arg, k.value) for k in call.keywords)
+  return out
+
+
+def unforwarded_parameters(fi, P):
+  """A function that has a parameter p and calls a helper / base constructor / own method that has a *defaulted* parameter of the
+  same name, without passing it: the helper then works with its default, whatever the caller was given.  Unanimous on the pinned
+  tree (every same-named defaulted parameter is forwarded); BAD only when no condition on p guards the call."""
+  out = []
+  fn = fi.node
+  mine = set(_param_table(fn)[0] + _param_table(fn)[2]) - {'self', 'cls'}
+  for c in ast.walk(fn):
+    if not isinstance(c, ast.Call):
+      continue
+    g, skip = resolve_callee(fi, c, P)
+    if g is None or g.node is fn:
+      continue
+    bound = bound_arguments(c, g, skip)
+    if bound is None:
+      continue
+    _o, dflt, _k = _param_table(g.node)
+    for q in sorted(dflt):
+      if q not in mine:
+        continue
+      if q in bound:
+        out.append(Site('unforwarded-parameter', c, OK, '%s passes its %s on to %s' % (fn.name, q, g.qualname)))
+        continue
+      guarded = [t for t, _p in guards_at(fn, c) if any(isinstance(n, ast.Name) and n.id == q for n in ast.walk(t))]
+      why = '%s has a parameter %s and calls %s, which takes %s (default %s), without passing it: %s works with its default whatever %s was given' % (
+          fi.qualname, q, g.qualname, q, norm_text(dflt[q]), g.qualname, fi.qualname)
+      if guarded:
+        out.append(Site('unforwarded-parameter', c, UNKNOWN, 'cannot classify: %s (the call is guarded by %s)' % (why, norm_text(guarded[0]))))
+      else:
+        out.append(Site('unforwarded-parameter', c, BAD, why))
+  return out
+
+
+# (function, parameter) -> why a parameter that nothing reads is accepted.  Confirmed by reading.
+DEAD_PARAMETER_ALLOW = {
+    ('sequence_to_pianoroll', 'min_velocity'): 'documented in the signature, never used by the pinned implementation either (velocities are scaled by max_velocity only)',
+}
+
+
+def dead_parameters(fi, P, depth=3):
+  """A parameter whose value can have no effect: it is never read, or only handed to helpers whose corresponding parameter is dead
+  in turn.  Interface methods (a base class declares the same parameter) are not sites."""
+  out = []
+
+  def implements(f, p):
+    if f.cls is None:
+      return False
+    for c in P.mro(f.cls)[1:]:
+      m = c.methods.get(f.name)
+      if m is not None and p in _param_table(m.node)[0] + _param_table(m.node)[2]:
+        return True
+    return any(p in _param_table(m.node)[0] for c in P.subclasses(f.cls) for m in [c.methods.get(f.name)] if m is not None) and f.is_abstract
+
+  def dead(f, p, d, seen):
+    """True: no read of p in f can have an effect; None: cannot tell."""
+    if (id(f.node), p) in seen or d < 0:
+      return None
+    seen = seen | {(id(f.node), p)}
+    body = [s for s in f.node.body if not (isinstance(s, ast.Expr) and isinstance(s.value, ast.Constant))]
+    if f.is_abstract or all(isinstance(s, (ast.Pass, ast.Raise)) for s in body):
+      return None
+    loads = [n for n in ast.walk(f.node) if isinstance(n, ast.Name) and n.id == p and isinstance(n.ctx, (ast.Load, ast.Del))]
+    if not loads:
+      return True
+    pm = U.parents(f.node)
+    for n in loads:
+      par = pm.get(id(n))
+      call = par if isinstance(par, ast.Call) and any(a is n for a in par.args) else (
+          pm.get(id(par)) if isinstance(par, ast.keyword) and isinstance(pm.get(id(par)), ast.Call) else None)
+      if call is None:
+        return False
+      g, skip = resolve_callee(f, call, P)
+      bound = bound_arguments(call, g, skip) if g is not None else None
+      if not bound:
+        return False
+      q = next((k for k, v in bound.items() if v is n), None)
+      if q is None or dead(g, q, d - 1, seen) is not True:
+        return False
+    return True
+  order, _d, kwo = _param_table(fi.node)
+  for p in order + kwo:
+    if p in ('self', 'cls') or p.startswith(('unused', '_')) or implements(fi, p):
+      continue
+    r = dead(fi, p, depth, frozenset())
+    if r is True and (fi.name, p) in DEAD_PARAMETER_ALLOW:
+      out.append(Site('dead-parameter', fi.node, OK, 'allow-listed: %s(%s): %s' % (fi.name, p, DEAD_PARAMETER_ALLOW[(fi.name, p)])))
+    elif r is True:
+      out.append(Site('dead-parameter', fi.node, BAD, 'the parameter %s of %s has no effect: it is never read, or only handed to helper parameters that are never read' % (p, fi.qualname)))
+    elif r is False:
+      out.append(Site('dead-parameter', fi.node, OK, 'the parameter %s of %s is read' % (p, fi.qualname)))
+  return out
 
 
 def dropped_pops(fn):
@@ -718,8 +880,27 @@ def self_check():
     if got != want:
       raise AssertionError('pitfall detector %s: example %r classified %s, recorded %s' % (kind, src, got, want))
     n += 1
+  from sa import loader
+  for kind, src, fname, want in SELF_EXAMPLES_P:
+    P = loader.Program.__new__(loader.Program)
+    P.repo, P.overlay, P.modules, P.digest = None, {}, {}, None
+    mi = loader.ModuleInfo('example', 'example.py', src, 'example.py')
+    mi.rel = 'example.py'
+    P.modules['example'] = mi
+    P._index_module(mi)
+    P._link()
+    sites = DETECT_P[kind](mi.all_functions[fname], P)
+    got = None
+    if sites:
+      got = BAD if any(s.verdict == BAD for s in sites) else (UNKNOWN if any(s.verdict == UNKNOWN for s in sites) else OK)
+    if got != want:
+      raise AssertionError('pitfall detector %s: example %r classified %s, recorded %s' % (kind, src, got, want))
+    n += 1
   _checked.append(n)
   return n
+
+
+DETECT_P = {'unforwarded-parameter': unforwarded_parameters, 'dead-parameter': dead_parameters}      # detectors that resolve callees through the program
 
 
 def apply(ctx, rule_prefix, funcs, kinds, why_matters):
@@ -729,7 +910,7 @@ def apply(ctx, rule_prefix, funcs, kinds, why_matters):
   ctx.count('pitfall_self_examples', n)
   for fi in funcs:
     for kind in kinds:
-      sites = DETECT_FI[kind](fi) if kind in DETECT_FI else DETECT[kind](fi.node, fi.module)
+      sites = DETECT_P[kind](fi, ctx.P) if kind in DETECT_P else (DETECT_FI[kind](fi) if kind in DETECT_FI else DETECT[kind](fi.node, fi.module))
       rule = '%s/%s' % (rule_prefix, kind)
       if not sites:
         ctx.ob(rule, fi, fi.node, True, 'no %s site in %s' % (kind, fi.qualname), construct='%s: no %s site' % (fi.qualname, kind))
